@@ -20,7 +20,7 @@ from ..core.runner import Acc, guard, CaseTimeout
 ID = 'C10'
 LEVEL = 'exploration'
 TECHNIQUE = 'bounded exhaustive enumeration of spans x labels x slice triples x access-path pairs against list-index reference'
-RULE = ('12 span types x lengths 1..4 (quick) / 1..6 (thorough) x {VectorContainer, parser-built model} x every label get/set, every (start,stop,step) with '
+RULE = ('17 span types (unsorted NumPy labels, labels that are variable/alias/attribute names) x lengths 1..4 (quick) / 1..6 (thorough) x {VectorContainer, parser-built model, aliased model} x every label get / set (set on every variable of the object, status and iterations included), every (start,stop,step) with '
         'start/stop in labels+None+absent and step in {None,1,2,3} get/set, every (write path, position, read path) triple. '
         'non-trivial = access that addresses at least one cell or must be rejected with KeyError')
 ASSUMPTIONS = [
